@@ -6,8 +6,10 @@ CONSTANT DropIdx = 0
 CONSTANT Cases <- CasesDeg
 CONSTANT Sel = {}
 CONSTANT DegShift = 0
-INIT InitCat
+INIT InitDegCat
 NEXT NextDeg
+INVARIANT DegreeInv
+INVARIANT DegreeExactInv
 INVARIANT CatLayoutInv
 INVARIANT Emit
 CHECK_DEADLOCK FALSE
